@@ -1095,3 +1095,14 @@ def holds_the_decorated_function(an, ob, class_short: str, attr: str = "_functio
         ob.inst(init, v, attr)
         if not is_name(unwrap(v), fparam):
             ob.fail(init, v, f"{ci.name}.{attr} does not hold the decorated function itself (`{fparam}`) but something derived from it: what is called later is not the function the decorator was given")
+
+
+def param_values_at(g, sc, node, pname: str) -> tuple[bool, list]:
+    """What the parameter `pname` can hold at CFG node `node` in scenario `sc`: (its incoming value reaches the node,
+    [values of the re-bindings `pname = <value>` that reach it])."""
+    from .astutil import is_name
+
+    rebinds = [n for n in g.nodes if n.kind == "stmt" and n.id in sc.reach and isinstance(n.ast, (ast.Assign, ast.AnnAssign)) and getattr(n.ast, "value", None) is not None and is_name(n.ast.targets[0] if isinstance(n.ast, ast.Assign) else n.ast.target, pname)]
+    unbound = g.search([g.entry], lambda x: x is node, skip_node=lambda x: x in rebinds, skip_edge=sc.skip, include_start=True) is not None
+    reach = [dn for dn in rebinds if g.search([t for t, lab in dn.succ if lab not in ("exc", "reraise")], lambda x: x is node, skip_node=lambda x, dn=dn: x in rebinds and x is not dn, skip_edge=sc.skip, include_start=True) is not None]
+    return unbound, [dn.ast.value for dn in reach]
